@@ -24,4 +24,59 @@ mod verif_kani_spanned {
         kani::cover!(r.is_ok());
         core::mem::forget(r);
     }
+
+    // ------------------------------------------------------------------ K6d: narrowing on input
+    // a TOML integer deserialized into a narrower Rust integer: Ok(x) => x == v; out of range => Err
+    fn stub_format(_args: core::fmt::Arguments<'_>) -> String {
+        String::new()
+    }
+
+    fn de_of(v: i64) -> crate::de::ValueDeserializer {
+        crate::de::ValueDeserializer::new(crate::Item::Value(crate::Value::Integer(crate::Formatted::new(v))))
+    }
+
+    #[kani::proof]
+    #[kani::unwind(8)]
+    #[kani::stub(alloc::fmt::format, stub_format)]
+    fn k6_de_narrow_u8() {
+        let v: i64 = kani::any();
+        let r: Result<u8, Error> = serde::Deserialize::deserialize(de_of(v));
+        match &r {
+            Ok(x) => assert!(*x as i64 == v, "integer altered when narrowed to u8"),
+            Err(_) => assert!(v < 0 || v > u8::MAX as i64, "in-range integer rejected for u8"),
+        }
+        kani::cover!(r.is_ok());
+        kani::cover!(r.is_err());
+        core::mem::forget(r);
+    }
+
+    #[kani::proof]
+    #[kani::unwind(8)]
+    #[kani::stub(alloc::fmt::format, stub_format)]
+    fn k6_de_narrow_i32() {
+        let v: i64 = kani::any();
+        let r: Result<i32, Error> = serde::Deserialize::deserialize(de_of(v));
+        match &r {
+            Ok(x) => assert!(*x as i64 == v, "integer altered when narrowed to i32"),
+            Err(_) => assert!(v < i32::MIN as i64 || v > i32::MAX as i64, "in-range integer rejected for i32"),
+        }
+        kani::cover!(r.is_ok());
+        kani::cover!(r.is_err());
+        core::mem::forget(r);
+    }
+
+    #[kani::proof]
+    #[kani::unwind(8)]
+    #[kani::stub(alloc::fmt::format, stub_format)]
+    fn k6_de_narrow_u64() {
+        let v: i64 = kani::any();
+        let r: Result<u64, Error> = serde::Deserialize::deserialize(de_of(v));
+        match &r {
+            Ok(x) => assert!(v >= 0 && *x == v as u64, "integer altered when converted to u64"),
+            Err(_) => assert!(v < 0, "non-negative integer rejected for u64"),
+        }
+        kani::cover!(r.is_ok());
+        kani::cover!(r.is_err());
+        core::mem::forget(r);
+    }
 }
